@@ -18,12 +18,9 @@ func conversionCollectionToList(ety cty.Type, conv conversion) conversion {
 			// for a set containing unknown values) then our result must be
 			// an unknown list, because we can't predict how many elements
 			// the resulting list should have. Its element type is the
-			// requested one, unless that is the dynamic placeholder, in
-			// which case the elements keep their type.
-			resultEty := ety.WithoutOptionalAttributesDeep()
-			if resultEty == cty.DynamicPseudoType {
-				resultEty = val.Type().ElementType()
-			}
+			// requested one, with any dynamic placeholders in it resolved
+			// from the source element type.
+			resultEty := dynamicReplace(val.Type().ElementType(), ety.WithoutOptionalAttributesDeep())
 			return cty.UnknownVal(cty.List(resultEty)), nil
 		}
 
